@@ -113,6 +113,9 @@ static void h_acquired (int mi, int writer) {
 		      t, mi, writer ? "write" : "read", h->writer, h->readers);
 	}
 	if (writer) h->writer = t; else { h->readers++; h->rd[t]++; if (h->readers > 1) nsim_probe (PR_READER_SHARED); }
+	/* C03 payload of the mutex itself: whatever the previous write-mode holder wrote before it released (by unlock
+	   or by blocking in a wait) must be visible now */
+	client_rd (&W.payload[48 + mi]);
 }
 static void h_releasing (int mi, int writer) {
 	hshadow_t *h = &HS[mi];
@@ -121,7 +124,7 @@ static void h_releasing (int mi, int writer) {
 		VIOL ("C01", "harness-shadow", "t%d is about to release mu%d (%s) but shadow has writer=t%d readers=%d",
 		      t, mi, writer ? "write" : "read", h->writer, h->readers);
 	}
-	if (writer) h->writer = -1; else { h->readers--; h->rd[t]--; }
+	if (writer) { client_wr (&W.payload[48 + mi]); W.payload[48 + mi]++; h->writer = -1; } else { h->readers--; h->rd[t]--; }
 }
 
 /* the caller must hold W.mu[mi] in the given mode according to the in-library model and the word */
